@@ -189,7 +189,11 @@ def _unsliced_sort(prog):
 
 @st.composite
 def st_program(draw, cfg, universe=None, leaves=None):
-    """Returns (universe, leaves, prog)."""
+    """Returns (universe, leaves, prog).
+
+    A *main* program is grown operation by operation; binary operations take their partner from the earlier versions
+    of the main program, from the other leaves, or from short side programs grown over the other leaves.
+    """
     regime = draw(st.sampled_from(cfg.regimes))
     if universe is None:
         universe = draw(st_universe(regime))
@@ -199,68 +203,87 @@ def st_program(draw, cfg, universe=None, leaves=None):
         for i in range(nl):
             leaves.append(draw(st_leaf(cfg, universe, i, leaves)))
         leaves = tuple(leaves)
-    pool = [("leaf", i) for i in range(len(leaves))]
     start = draw(st.integers(0, len(leaves) - 1))
-    pool.append(pool[start])
+    main = ("leaf", start)
+    sides = []
+    for i in range(len(leaves)):
+        if i == start:
+            continue
+        side = ("leaf", i)
+        for _ in range(draw(st.sampled_from([0, 0, 1, 2]))):
+            node = draw(st_unary_node(side, schema(side, leaves), universe, cfg.unary, cfg))
+            if node is not None:
+                side = node
+        sides.append(side)
+        if side[0] != "leaf":
+            sides.append(("leaf", i))
+    history = [main]
     counter = [0]
-    nops = draw(st.integers(cfg.min_ops, cfg.max_ops))
+    nops = max(draw(st.integers(cfg.min_ops, cfg.max_ops)), draw(st.integers(cfg.min_ops, cfg.max_ops)))
     made = 0
     attempts = 0
+    sql = lambda e: e == 0 and cfg.avoid_order_loss  # noqa: E731
     while made < nops and attempts < nops * 3:
         attempts += 1
-        src = pool[-1] if draw(st.integers(0, 9)) < 7 else draw(st.sampled_from(pool))
-        cols = schema(src, leaves)
-        eng = engine_of(src, leaves)
+        cols = schema(main, leaves)
+        eng = engine_of(main, leaves)
         choice = "u"
         r = draw(st.integers(0, 99))
         if cfg.binary and r < cfg.p_binary * 100:
             choice = draw(st.sampled_from(cfg.binary))
-        elif cfg.markers and r >= 88:
+        elif cfg.markers and r >= 100 - 6 * len(cfg.markers):
             choice = draw(st.sampled_from(cfg.markers))
         node = None
+        steer = sql(eng) and draw(st.integers(0, 9)) > 0
         if choice == "u":
-            node = draw(st_unary_node(src, cols, universe, cfg.unary, cfg))
+            node = draw(st_unary_node(main, cols, universe, cfg.unary, cfg))
         elif choice == "mat":
-            if not (cfg.avoid_order_loss and eng == 0 and _unsliced_sort(src) and draw(st.integers(0, 9)) > 0):
-                node = ("mat", src, f"m{counter[0]}")
+            if not (steer and _unsliced_sort(main)):
+                node = ("mat", main, f"m{counter[0]}")
                 counter[0] += 1
         elif choice == "xfer":
             dests = [e for e in cfg.engines if e != eng]
             if dests:
-                node = ("xfer", src, draw(st.sampled_from(dests)))
+                node = ("xfer", main, draw(st.sampled_from(dests)))
         elif choice == "chain":
-            cands = [p for p in pool if engine_of(p, leaves) == eng and schema(p, leaves) == cols]
-            if cfg.avoid_order_loss and eng == 0:
-                ok = [p for p in cands if not _unsliced_sort(p)]
-                if _unsliced_sort(src) and draw(st.integers(0, 9)) > 0:
-                    ok = []
-                if ok or draw(st.integers(0, 9)) > 0:
-                    cands = ok
-            if cands:
+            if steer and _unsliced_sort(main):
+                continue
+            cands = [p for p in history + sides if engine_of(p, leaves) == eng and schema(p, leaves) == cols]
+            if steer:
+                cands = [p for p in cands if not _unsliced_sort(p)]
+            other = None
+            if cands and draw(st.integers(0, 3)) > 0:
                 other = draw(st.sampled_from(cands))
-                node = ("chain", src, other) if draw(st.booleans()) else ("chain", other, src)
+            else:
+                # a schema-preserving variation of the main program itself
+                keep = [k for k in cfg.unary if k in ("sel", "slice", "dedup") or (k == "sort" and not steer)]
+                if keep:
+                    other = draw(st_unary_node(main, cols, universe, keep, cfg))
+            if other is not None:
+                node = ("chain", main, other) if draw(st.booleans()) else ("chain", other, main)
         elif choice == "join":
-            mine = leaf_indices(src)
+            if steer and _unsliced_sort(main):
+                continue
+            mine = leaf_indices(main)
             cands = []
-            for p in pool:
+            for p in sides:
                 if engine_of(p, leaves) != eng or leaf_indices(p) & mine:
                     continue
                 shared = schema(p, leaves) & cols
                 if any(not t.is_key for t in shared):
                     continue  # P8: operands share only key columns
-                if cfg.avoid_order_loss and eng == 0 and _unsliced_sort(p) and draw(st.integers(0, 9)) > 0:
+                if steer and _unsliced_sort(p):
                     continue
                 cands.append(p)
-            if cfg.avoid_order_loss and eng == 0 and _unsliced_sort(src) and draw(st.integers(0, 9)) > 0:
-                cands = []
             if cands:
                 other = draw(st.sampled_from(cands))
                 allc = cols | schema(other, leaves)
                 pred = None
                 if allc and draw(st.integers(0, 2)) == 0:
                     pred = draw(st_pred(allc, 1))
-                node = ("join", src, other, pred) if draw(st.booleans()) else ("join", other, src, pred)
+                node = ("join", main, other, pred) if draw(st.booleans()) else ("join", other, main, pred)
         if node is not None:
-            pool.append(node)
+            main = node
+            history.append(main)
             made += 1
-    return (universe, leaves, pool[-1])
+    return (universe, leaves, main)
